@@ -254,7 +254,11 @@ func (fr *frame) modifiesObls(ctr *FuncContract, envPre *Env, r retSite, site st
 				if len(entryEx) > 0 {
 					exc = "(or " + strings.Join(entryEx, " ") + ")"
 				}
-				goal = fmt.Sprintf("(forall ((fr_r Int) (fr_k %s)) (=> (and true %s (not %s)) (= (select (select %s fr_r) fr_k) (select (select %s fr_r) fr_k))))", arrayDomain(inner), strings.Join(ex, " "), exc, fin, ini)
+				// sync.Map cells live at interior addresses: a map that is (a field of (a field of)) an object allocated by
+				// this call is not part of the caller-visible frame
+				fc.P.Declare("faowner", "(declare-fun faowner (Int) Int)")
+				old := fmt.Sprintf("(and (< fr_r %s) (< (faowner fr_r) %s) (< (faowner (faowner fr_r)) %s))", top0, top0, top0)
+				goal = fmt.Sprintf("(forall ((fr_r Int) (fr_k %s)) (=> (and %s %s (not %s)) (= (select (select %s fr_r) fr_k) (select (select %s fr_r) fr_k))))", arrayDomain(inner), old, strings.Join(ex, " "), exc, fin, ini)
 			} else if strings.HasPrefix(k, "MV:") || strings.HasPrefix(k, "MD:") {
 				inner := arrayRange(sortK)
 				exc := "false"
